@@ -1,10 +1,29 @@
 //! One module per claimed property: generate / execute / shrink.
+pub mod c10;
+pub mod c11;
+pub mod c12;
+pub mod c13;
+pub mod c14;
+pub mod c15;
 pub mod c19;
+pub mod common;
 
 use crate::PropDef;
 
+macro_rules! def {
+    ($m:ident) => {
+        PropDef { id: $m::ID, n_units: $m::n_units, run_unit: $m::run_unit, replay: $m::replay, shrink: $m::shrink, case_at: $m::case_at }
+    };
+}
+
 pub fn all() -> Vec<PropDef> {
     vec![
+        def!(c10),
+        def!(c11),
+        def!(c12),
+        def!(c13),
+        def!(c14),
+        def!(c15),
         PropDef {
             id: c19::ID,
             n_units: c19::n_units,
